@@ -451,7 +451,15 @@ def vc_pcmp(ctx):
             return None
         base = iter_source(q['src'])[0]
         pb = param_path(base)
-        if not pb or pb[1][-1:] != ('dots',) or set(iter_adaptors(q['src'])) & LOSSY_ADAPTORS:
+        if not pb or set(iter_adaptors(q['src'])) & LOSSY_ADAPTORS:
+            return None
+        # the scan ranges over the (actor, counter) entries of X.dots, or over the dots X.iter() yields
+        if pb[1][-1:] == ('dots',):
+            kf, vf = '0', '1'
+        elif pb[1] == () and any(st[0] == 'call' and call_name(st) == 'iter' and 'VClock' in (cinfo(st[1])['self'] or cinfo(st[1])['def'] or '')
+                                 for st in subterms(versionless(q['src']))):
+            kf, vf = 'actor', 'counter'
+        else:
             return None
         item = q['m'].get(('param', 2))
         if item is None:
@@ -460,10 +468,11 @@ def vc_pcmp(ctx):
 
         def classify(a, b, tt):
             for x, y, orient in ((a, b, 'fwd'), (b, a, 'rev')):
-                if is_call(x, 'get', self_adt='VClock') and len(x[2]) == 2:
-                    k, v = versionless(x[2][1]), versionless(y)
-                    pc = param_path(x[2][0])
-                    if k == ('field', versionless(item), '0') and v == ('field', versionless(item), '1') and pc:
+                cg = clock_get_of(x)
+                if cg is not None:
+                    k, v = versionless(cg[1]), versionless(y)
+                    pc = param_path(cg[0])
+                    if k == ('field', versionless(item), kf) and v == ('field', versionless(item), vf) and pc:
                         got.append(pc[0])
                         return ('p', orient)
             return None
@@ -499,11 +508,28 @@ def vc_pcmp(ctx):
         'None': ret_sites_by(it, lambda v: is_variant(v, 'option::Option', 'None')),
     }
     table = {}
+    KIND = {EQ: 'Equal', GT: 'Greater', LT: 'Less', NONE: 'None'}
     for eq in (True, False):
         for ge in (True, False):
             for le in (True, False):
-                rc = Reach(facts, body, Evaluator(facts, bool_atom=atom, assumption={'eq': eq, 'ge': ge, 'le': le}))
-                table[(eq, ge, le)] = {k: any(b in rc.reachable for b, _ in v) for k, v in kinds.items()}
+                evr = Evaluator(facts, bool_atom=atom, assumption={'eq': eq, 'ge': ge, 'le': le})
+                rc = Reach(facts, body, evr)
+                res = {k: any(b in rc.reachable for b, _ in v) for k, v in kinds.items()}
+                # results that are not spelled as a literal `Some(Ordering::X)` / `None` (then_some, or_else, ..): evaluate the value
+                for (bb_, si_), w_ in it.ret_assigns.items():
+                    if bb_ not in rc.reachable:
+                        continue
+                    for alt in phi_alts(w_.val):
+                        if alt[0] == 'agg':
+                            continue
+                        v_ = evr.ev(alt)
+                        if isinstance(v_, tuple) and v_[0] == 'optord':
+                            res[KIND[v_[1]]] = True
+                        elif isinstance(v_, tuple) and v_[0] == 'optnone':
+                            res['None'] = True
+                        else:
+                            res['?'] = True
+                table[(eq, ge, le)] = res
     det = {'(eq,self>=other,other>=self) -> reachable results': {str(k): sorted(x for x, y in v.items() if y) for k, v in table.items()}}
     if scans.get('bad'):
         cb, truth = scans['bad'][0]
@@ -549,7 +575,7 @@ def vc_conc(ctx):
         return None
     truth = {}
     for o in PARTIAL:
-        truth[o] = Evaluator(facts, classify=classify, assumption={'pc': o}).ev(it.ret)
+        truth[o] = ret_value(facts, body, Evaluator(facts, classify=classify, assumption={'pc': o}))
     ok = truth == {LT: False, EQ: False, GT: False, NONE: True}
     ctx.check(ok, 'concurrent', body, 'true exactly under None', 'concurrent() is true under %s, expected exactly {None}'
               % sorted(k for k, v in truth.items() if v), details={'truth': truth})
